@@ -1,6 +1,6 @@
 """Classes for the directed probes of harness/drive_typeprobe.py: how a class gets its type identifier and its
 parameter declarations (outside the Coq model, which takes type identifiers and argument tables as data)."""
-from typing import Optional
+from typing import Dict, Optional, Union
 
 from experimaestro import Config, Param, Meta
 
@@ -63,3 +63,8 @@ class OptB(Config):
 
 class HolderB(Config):
     sub: Param[OptB] = OptB(o=None)
+
+
+# ---- a dictionary whose values are ints OR dictionaries (two levels at most)
+class UD(Config):
+    d: Param[Dict[str, Union[int, Dict[str, int]]]]
